@@ -194,6 +194,11 @@ def _case_adjust(ctx, rng, ds, shape, fam, vector, seen_profiles):
         unsigned = True
         efam += "+dtype-extremes"
         ctx.count("adjust:narrow-signed-extremes")
+    if not unsigned and scale == 1 and dtype != np.float32 and "nodata" not in efam and rng.random() < 0.15:
+        # elevations that need more than 24 bits (mm above a far datum): exact in the raster's own dtype
+        base = rng.randint(2 ** 24, 2 ** 30 if dtype == np.int32 else 2 ** 40)
+        e = [base + x for x in e]
+        efam += "+large-magnitude"
     idt = rng.choice(IDX_DTYPES)
     try:
         flw = mk_vector(ds, idt) if vector else mk_raster(ds, shape, idt)
